@@ -3,6 +3,7 @@ package optionreflect
 import (
 	"math"
 	"math/bits"
+	"sort"
 	"strconv"
 	"unicode/utf8"
 
@@ -92,6 +93,12 @@ func walkOptionMap(fieldDesc protoreflect.FieldDescriptor, mp protoreflect.Map) 
 		}
 		out.Children = append(out.Children, kvChild)
 		return true
+	})
+
+	// Range order is undefined, sort by the printed key for stable output
+	// (keys are unique within a map).
+	sort.Slice(out.Children, func(i, j int) bool {
+		return out.Children[i].Children[0].ScalarValue < out.Children[j].Children[0].ScalarValue
 	})
 
 	return out
